@@ -46,57 +46,128 @@ Definition is_none (v : value) : bool := match v with VNone => true | _ => false
 
 Definition d_nm (d : dcl) : nat := c_nm (d_cls d).
 
+(* ---------------------------------------------------------------- facts read from the source *)
+(* What tools/translate/proc_tr.py extracts from the text of call_obj_processors
+   (Gen/SrcProc.v `src_facts`); `walk` below is instantiated by them, so every theorem about
+   `walk src_facts` is re-proved against the current source. *)
+Inductive rtest := TNotNone | TTruthy | TAlways.   (* `x is not None` | `x` | no test *)
+Inductive wstep := WChildren | WOwn | WDecl.        (* attribute loop | own-class call | declared-class call *)
+Inductive retpol := ROwnFirst | RDeclFirst           (* which non-None result is returned *)
+                | ROwnTruthy | RDeclTruthy.        (* `return a or b` *)
+
+Record walk_facts := WF {
+  wf_match_skip : bool;      (* `if metaclass_of_grammar_rule._tx_type is RULE_MATCH: return` is there *)
+  wf_only_cont : bool;       (* the attribute loop is guarded by `if metaattr.cont:` *)
+  wf_attr_test : rtest;      (* `if attr is not None:` *)
+  wf_elem_test : rtest;      (* `if obj is not None:` for list elements *)
+  wf_repl_single : rtest;    (* `if result is not None: setattr(...)` *)
+  wf_repl_list : rtest;      (* `if result is not None: attr[idx] = result` *)
+  wf_order : list wstep;     (* textual (= execution) order of the three blocks *)
+  wf_own_fqn : bool;         (* own-class call requires `_tx_fqn` to differ *)
+  wf_own_name : bool;        (* ... and the simple names to differ (fix 68837ab) *)
+  wf_ret : retpol            (* `if return_value_current is not None: return it, else the grammar one` *)
+}.
+
+(* the behaviour the specification below describes *)
+Definition std_facts : walk_facts :=
+  WF true true TNotNone TNotNone TNotNone TNotNone [WChildren; WOwn; WDecl] true true ROwnFirst.
+
+Definition rtest_eqb (a b : rtest) : bool :=
+  match a, b with TNotNone, TNotNone | TTruthy, TTruthy | TAlways, TAlways => true | _, _ => false end.
+Definition wstep_eqb (a b : wstep) : bool :=
+  match a, b with WChildren, WChildren | WOwn, WOwn | WDecl, WDecl => true | _, _ => false end.
+Fixpoint wsteps_eqb (a b : list wstep) : bool :=
+  match a, b with
+  | [], [] => true
+  | x :: a', y :: b' => wstep_eqb x y && wsteps_eqb a' b'
+  | _, _ => false
+  end.
+Definition retpol_eqb (a b : retpol) : bool :=
+  match a, b with
+  | ROwnFirst, ROwnFirst | RDeclFirst, RDeclFirst | ROwnTruthy, ROwnTruthy | RDeclTruthy, RDeclTruthy => true
+  | _, _ => false
+  end.
+
+Definition facts_ok (F : walk_facts) : bool :=
+  Bool.eqb (wf_match_skip F) true && Bool.eqb (wf_only_cont F) true &&
+  rtest_eqb (wf_attr_test F) TNotNone && rtest_eqb (wf_elem_test F) TNotNone &&
+  rtest_eqb (wf_repl_single F) TNotNone && rtest_eqb (wf_repl_list F) TNotNone &&
+  wsteps_eqb (wf_order F) [WChildren; WOwn; WDecl] &&
+  Bool.eqb (wf_own_fqn F) true && Bool.eqb (wf_own_name F) true && retpol_eqb (wf_ret F) ROwnFirst.
+
 Section Walk.
-  (* `reg n`  : metamodel.has_obj_processor(n)
+  (* `F`       : the facts above
+     `reg n`   : metamodel.has_obj_processor(n)
      `proc n v`: the value returned by the processor registered under n when called on v
-     (None = Python None).  Processors are external: any function. *)
+                 (None = Python None).  Processors are external: any function.
+     `truthy v`: Python truthiness of v (only consulted when a fact says `TTruthy`). *)
+  Variable F : walk_facts.
   Variable reg : nat -> bool.
   Variable proc : nat -> value -> option value.
+  Variable truthy : value -> bool.
 
-  (* model.py:840-843 (after the repair): the processor of the object's own class is called
-     when that class is not the declared one (compared by _tx_fqn), is not registered under
-     the same simple name as the declared one (it would be the same processor, called twice),
-     and has a processor. *)
-  Definition own_called (c : cref) (d : dcl) : bool :=
-    negb (fqn_eqb c (d_cls d)) && negb (Nat.eqb (c_nm c) (d_nm d)) && reg (c_nm c).
+  Definition vtest (t : rtest) (v : value) : bool :=
+    match t with TNotNone => negb (is_none v) | TTruthy => truthy v | TAlways => true end.
+  Definition ltest (t : rtest) (vs : values) : bool :=     (* the same test on a list value *)
+    match t with TTruthy => match vs with VsNil => false | _ => true end | _ => true end.
+  (* `if <test on result>: slot = result` *)
+  Definition repl (t : rtest) (r : option value) (cur : value) : value :=
+    match r with
+    | Some x => match t with TTruthy => if truthy x then x else cur | _ => x end
+    | None => match t with TAlways => VNone | _ => cur end
+    end.
+  Definition own_called_f (c : cref) (d : dcl) : bool :=
+    (if wf_own_fqn F then negb (fqn_eqb c (d_cls d)) else true) &&
+    (if wf_own_name F then negb (Nat.eqb (c_nm c) (d_nm d)) else true) && reg (c_nm c).
+  Definition pick (rc rg : option value) : option value :=
+    match wf_ret F with
+    | ROwnFirst => match rc with Some r => Some r | None => rg end
+    | RDeclFirst => match rg with Some r => Some r | None => rc end
+    | ROwnTruthy => match rc with Some r => if truthy r then Some r else rg | None => rg end
+    | RDeclTruthy => match rg with Some r => if truthy r then Some r else rc | None => rc end
+    end.
 
   (* State-passing transcription: `log` is the list of calls made so far (Python appends). *)
   Fixpoint walk (d : dcl) (v : value) (log : list event) {struct v}
     : list event * value * option value :=
-    if d_match d then (log, v, None)                       (* :801-804 *)
+    if wf_match_skip F && d_match d then (log, v, None)     (* RULE_MATCH: return *)
     else
       match v with
-      | VObj id c fs =>                                     (* :814 class name in metamodel *)
-          let '(log1, fs') := walk_fields fs log in         (* :822-838 *)
-          let v' := VObj id c fs' in
-          let '(log2, rc) :=                                (* :840-850 *)
-            if own_called c d then (log1 ++ [(c_nm c, v')], proc (c_nm c) v') else (log1, None) in
-          let '(log3, rg) :=                                (* :853-857 *)
-            if reg (d_nm d) then (log2 ++ [(d_nm d, v')], proc (d_nm d) v') else (log2, None) in
-          (log3, v', match rc with Some r => Some r | None => rg end)   (* :873-876 *)
-      | _ =>
-          let '(log3, rg) :=
-            if reg (d_nm d) then (log ++ [(d_nm d, v)], proc (d_nm d) v) else (log, None) in
-          (log3, v, rg)
+      | VObj id c fs =>                                     (* class name in metamodel *)
+          (* the three blocks in source order; `cur` are the attributes as they are now *)
+          let fix run (steps : list wstep) (lg : list event) (cur : fields)
+                      (rc rg : option value) {struct steps} : list event * value * option value :=
+            match steps with
+            | [] => (lg, VObj id c cur, pick rc rg)
+            | WChildren :: steps' =>
+                let '(lg', fs') := walk_fields fs lg in run steps' lg' fs' rc rg
+            | WOwn :: steps' =>
+                if own_called_f c d
+                then run steps' (lg ++ [(c_nm c, VObj id c cur)]) cur (proc (c_nm c) (VObj id c cur)) rg
+                else run steps' lg cur rc rg
+            | WDecl :: steps' =>
+                if reg (d_nm d)
+                then run steps' (lg ++ [(d_nm d, VObj id c cur)]) cur rc (proc (d_nm d) (VObj id c cur))
+                else run steps' lg cur rc rg
+            end in
+          run (wf_order F) log fs None None
+      | _ =>                                                (* not an instance of a meta-class *)
+          if reg (d_nm d) then (log ++ [(d_nm d, v)], v, pick None (proc (d_nm d) v))
+          else (log, v, pick None None)
       end
   with walk_fields (fs : fields) (log : list event) {struct fs} : list event * fields :=
     match fs with
     | FNil => (log, FNil)
     | FOne n cont d v rest =>
-        if cont then                                        (* :824 *)
-          match v with
-          | VNone =>                                        (* :826 *)
-              let '(log2, rest') := walk_fields rest log in (log2, FOne n cont d VNone rest')
-          | _ =>
-              let '(log1, v', r) := walk d v log in         (* :836 *)
-              let '(log2, rest') := walk_fields rest log1 in
-              (log2, FOne n cont d (match r with Some x => x | None => v' end) rest')  (* :837-838 *)
-          end
+        if (if wf_only_cont F then cont else true) && vtest (wf_attr_test F) v then
+          let '(log1, v', r) := walk d v log in
+          let '(log2, rest') := walk_fields rest log1 in
+          (log2, FOne n cont d (repl (wf_repl_single F) r v') rest')
         else
           let '(log2, rest') := walk_fields rest log in (log2, FOne n cont d v rest')
     | FMany n cont d vs rest =>
-        if cont then
-          let '(log1, vs') := walk_values d vs log in       (* :828-834 *)
+        if (if wf_only_cont F then cont else true) && ltest (wf_attr_test F) vs then
+          let '(log1, vs') := walk_values d vs log in
           let '(log2, rest') := walk_fields rest log1 in
           (log2, FMany n cont d vs' rest')
         else
@@ -106,20 +177,29 @@ Section Walk.
     match vs with
     | VsNil => (log, VsNil)
     | VsCons v vs0 =>
-        match v with
-        | VNone =>                                          (* :829 *)
-            let '(log2, vs') := walk_values d vs0 log in (log2, VsCons VNone vs')
-        | _ =>
-            let '(log1, v', r) := walk d v log in           (* :830-832 *)
-            let '(log2, vs') := walk_values d vs0 log1 in
-            (log2, VsCons (match r with Some x => x | None => v' end) vs')   (* :833-834 *)
-        end
+        if vtest (wf_elem_test F) v then
+          let '(log1, v', r) := walk d v log in
+          let '(log2, vs') := walk_values d vs0 log1 in
+          (log2, VsCons (repl (wf_repl_list F) r v') vs')       (* attr[idx] = result *)
+        else
+          let '(log2, vs') := walk_values d vs0 log in (log2, VsCons v vs')
     end.
 
-  (* model.py:987 `call_obj_processors(m._tx_metamodel, m)`: the root is looked up under
+  (* `call_obj_processors(m._tx_metamodel, m)`: the root is looked up under
      `metamodel[type(m).__name__]` (given as `d`); the returned value is discarded. *)
   Definition walk_root (d : dcl) (v : value) : list event * value :=
     let '(log, v', _) := walk d v [] in (log, v').
+End Walk.
+
+Section Spec.
+  Variable reg : nat -> bool.
+  Variable proc : nat -> value -> option value.
+
+  (* the processor of the object's own class is called when that class is not the declared one
+     (compared by _tx_fqn), is not registered under the same simple name as the declared one
+     (it would be the same processor, called twice), and has a processor *)
+  Definition own_called (c : cref) (d : dcl) : bool :=
+    negb (fqn_eqb c (d_cls d)) && negb (Nat.eqb (c_nm c) (d_nm d)) && reg (c_nm c).
 
   (* ------------------------------------------------------------------ specification *)
   (* declarative description, written without a log accumulator *)
@@ -211,7 +291,7 @@ Section Walk.
     end ++ (if reg (d_nm d) then [(d_nm d, v)] else []).
 
   Definition schedule (d : dcl) (v : value) : list event := flat_map events (visits d v).
-End Walk.
+End Spec.
 
 (* ---------------------------------------------------------------- tree vocabulary *)
 (* independent of processors: which objects a tree contains (through containment attributes
@@ -259,6 +339,73 @@ Definition calls_on (p i : nat) (log : list (nat * value)) : nat := length (filt
 
 Fixpoint values_to_list (vs : values) : list value :=
   match vs with VsNil => [] | VsCons v vs0 => v :: values_to_list vs0 end.
+
+(* ---------------------------------------------------------------- match-rule processors *)
+(* model.py `process_match` (called by process_node while the object tree is being built):
+   the processors of match rules run on the parse subtree of a match-rule value, children
+   left to right, innermost first; a node's processor receives the concatenation of its
+   children's results (`"".join(str(...))`, or the only child's result).  Values are
+   abstracted to strings (harness processors return strings); `mreg r` = a processor is
+   registered under rule name r, `mproc r s` = what it returns. *)
+Inductive ptree :=
+| PTerm (rule : nat) (text : list N)
+| PNode (rule : nat) (kids : ptrees)
+with ptrees :=
+| PNil
+| PCons (t : ptree) (ts : ptrees).
+
+Section Match.
+  Variable mreg : nat -> bool.
+  Variable mproc : nat -> list N -> list N.
+
+  (* metamodel.process(value, rule_name): the registered processor, else the identity *)
+  Definition mcall (r : nat) (s : list N) (log : list (nat * list N)) : list (nat * list N) * list N :=
+    if mreg r then (log ++ [(r, s)], mproc r s) else (log, s).
+
+  Fixpoint pmatch (t : ptree) (log : list (nat * list N)) {struct t} : list (nat * list N) * list N :=
+    match t with
+    | PTerm r s => mcall r s log                                  (* Terminal *)
+    | PNode r ks =>
+        let '(log1, res) :=
+          match ks with
+          | PCons k PNil => pmatch k log                           (* len(nt) == 1 *)
+          | _ => pmatch_join ks log                                (* join of the converted children *)
+          end in
+        mcall r res log1
+    end
+  with pmatch_join (ks : ptrees) (log : list (nat * list N)) {struct ks} : list (nat * list N) * list N :=
+    match ks with
+    | PNil => (log, [])
+    | PCons k ks' =>
+        let '(log1, a) := pmatch k log in
+        let '(log2, b) := pmatch_join ks' log1 in
+        (log2, a ++ b)
+    end.
+
+  (* the match-rule values of a build, in the order process_node reaches them *)
+  Fixpoint pmatch_forest (ts : list ptree) (log : list (nat * list N)) : list (nat * list N) :=
+    match ts with
+    | [] => log
+    | t :: ts' => pmatch_forest ts' (fst (pmatch t log))
+    end.
+
+  (* specification: result and post-order call list of a subtree *)
+  Definition mapp (r : nat) (s : list N) : list N := if mreg r then mproc r s else s.
+  Fixpoint mval (t : ptree) : list N :=
+    match t with
+    | PTerm r s => mapp r s
+    | PNode r ks => mapp r (mvals ks)
+    end
+  with mvals (ks : ptrees) : list N :=
+    match ks with PNil => [] | PCons k ks' => mval k ++ mvals ks' end.
+  Fixpoint mevents (t : ptree) : list (nat * list N) :=
+    match t with
+    | PTerm r s => if mreg r then [(r, s)] else []
+    | PNode r ks => mevents_kids ks ++ (if mreg r then [(r, mvals ks)] else [])
+    end
+  with mevents_kids (ks : ptrees) : list (nat * list N) :=
+    match ks with PNil => [] | PCons k ks' => mevents k ++ mevents_kids ks' end.
+End Match.
 
 (* ---------------------------------------------------------------- phases of a load *)
 (* model.py:936-987 for the main model: the list of models under construction is resolved in
@@ -403,11 +550,20 @@ Definition tbl_proc (tbl : list (nat * nat * action)) (p : nat) (v : value) : op
 
 Definition tbl_reg (l : list nat) (n : nat) : bool := existsb (Nat.eqb n) l.
 
-Definition run_case (regl : list nat) (tbl : list (nat * nat * action)) (d : dcl) (v : value) : string :=
-  let '(log, v') := walk_root (tbl_reg regl) (tbl_proc tbl) d v in
-  show_log log ++ "$" ++ show_value v'.
+(* Python truthiness of the harness values: objects are truthy, None is not, atoms by table *)
+Definition tbl_truthy (falsy : list nat) (v : value) : bool :=
+  match v with VNone => false | VAtom k => negb (existsb (Nat.eqb k) falsy) | VObj _ _ _ => true end.
 
 (* several models under construction, processed one after the other (model.py:979-987) *)
-Definition run_models (regl : list nat) (tbl : list (nat * nat * action)) (ms : list (dcl * value)) : string :=
-  let rs := map (fun m => walk_root (tbl_reg regl) (tbl_proc tbl) (fst m) (snd m)) ms in
+Definition run_models (F : walk_facts) (regl falsy : list nat) (tbl : list (nat * nat * action))
+    (ms : list (dcl * value)) : string :=
+  let rs := map (fun m => walk_root F (tbl_reg regl) (tbl_proc tbl) (tbl_truthy falsy) (fst m) (snd m)) ms in
   show_log (flat_map fst rs) ++ "$" ++ sjoin "$" (map (fun r => show_value (snd r)) rs).
+
+(* match-rule processors of the harness: the processor of rule r appends a fixed suffix *)
+Definition tbl_mproc (tbl : list (nat * list N)) (r : nat) (s : list N) : list N :=
+  match find (fun x => Nat.eqb (fst x) r) tbl with Some (_, suf) => s ++ suf | None => s end.
+Definition show_mlog (l : list (nat * list N)) : string :=
+  sjoin "|" (map (fun e => show_nat (fst e) ++ "(" ++ show_str (snd e) ++ ")") l).
+Definition run_match (regl : list nat) (tbl : list (nat * list N)) (ts : list ptree) : string :=
+  show_mlog (pmatch_forest (tbl_reg regl) (tbl_mproc tbl) ts []).
